@@ -169,7 +169,7 @@ def _run(chk, wd, proved):
     streams += pairs
     core3 = list(itertools.product(CORE, repeat=3))
     if quick:
-        core3 = [s for i, s in enumerate(core3) if i % 3 == 0]
+        core3 = [s for i, s in enumerate(core3) if i % 5 == 0]
     streams += core3
     if not quick:
         streams += list(itertools.product(CORE[:5], repeat=4))
@@ -189,7 +189,7 @@ def _run(chk, wd, proved):
                (b'RESULT 2\n', b'\x1b[0mOK'), (b'RESULT 5\n', b'\x1b[31m', b'READY\n'), (b'RES\x1b[mULT 2\nOK',),
                (b'RESULT 2\x1b[K\n', b'OK'), (b'\x1b[1mREADY\n',), (b'RESULT 6\nO\x1b', b'[1mK', b'READY\n'),
                (b'RESULT 2\nOK\x1b[0m', b'READY\n'), (b'RESULT 3\n\x1b[', b'H')]   # inside the signature of C10-zero-length-result
-    exh_upto = 8 if quick else 12
+    exh_upto = 7 if quick else 12
     for si, toks in enumerate(list(streams) + hostile):
         stream = b''.join(toks)
         is_hostile = si >= len(streams)
@@ -320,14 +320,14 @@ def _run(chk, wd, proved):
         d = depth if (quick or sname == 'both-ready') else 2
         for seq in itertools.product(base_ops, repeat=d):
             must = sname.startswith('fork-failed') and seq[0][0] == 'spawn' and seq[-1][0] == 'feed'
-            if quick and not must and rng.random() < (0.75 if sname in ('cold', 'fork-failed-0', 'fork-failed-1') else 0.45):
+            if quick and not must and rng.random() < (0.85 if sname in ('cold', 'fork-failed-0', 'fork-failed-1') else 0.6):
                 continue
             ops = [inst(o) for o in seq]
             cur['strip'] = bool(len(cases) % 2)
             add_case(2, 0, setup, ops, 'S-exh')
             evaluations += 1
             chk.dist('S-exh:' + sname)
-    nrand = 600 if quick else 8000
+    nrand = 500 if quick else 8000
     for _ in range(nrand):
         n = rng.randrange(4, 14)
         ops = []
